@@ -519,7 +519,7 @@ def random_streams(rng, nm):
         pool = [F(2), F(1, 2), F(3), F(-1), F(3, 2)] if exact else [2.0, 0.5, 3.0, -1.0, 1.5, 7.3]
         f = rng.choice(pool)
         ref = [S(0)] * nd_
-        if nd_ > 1 and rng.random() < 0.5:
+        if nd_ > 1 and exact and rng.random() < 0.5:
             ref[rng.randrange(nd_)] = S(F(rng.randint(-16, 16), 2))
         cases.append(dict(kind="transform", st=st, inplace=(k // 2) % 2 == 0, op="scale", f=[S(f)] * nd_,
                           scalar=rng.random() < 0.7, ref=ref,
@@ -1166,7 +1166,10 @@ def run_case(c):
             want = transform_boxes(st, c, held)
             if want is not None:
                 big = max([abs(v) for _, a_, b_ in want for v in a_ + b_] + [maxabs(st)])
-                if exact or big * F(1, 2 ** 49) <= ALIGN_TOL / 4:
+                small = min([abs(y - x) for _, a_, b_ in want for x, y in zip(a_, b_)] + cq)
+                # (scale regime: claimed only where the moved corners still resolve the cells and rounding
+                #  cannot reach the absolute 1e-12 test)
+                if exact or (big * F(1, 2 ** 49) <= ALIGN_TOL / 4 and big * F(1, 2 ** 49) <= small / 10 ** 6):
                     rec["oracle"].append("valid-transformation-rejected")
         rec["tags"] = tags_abs
         rec["oracle"] = sorted(set(rec["oracle"]))
